@@ -68,12 +68,19 @@ def finite_scope(text, k):
     return text.replace("(check-sat)", "(check-sat)\n(get-model)")
 
 
-def run_finite(text, kmax=4, kmin=1):
+def run_finite(text, kmax=4, kmin=1, ints=True, timeout_s=None):
     from .finite import refute_finite
 
-    k, out = refute_finite(text, kmax=kmax, timeout_s=FIN_T, kmin=kmin)
+    k, out = refute_finite(text, kmax=kmax, timeout_s=timeout_s or FIN_T, kmin=kmin)
     if k is not None:
         return "sat", k, out
+    if ints and "Int" in text and ("forall" in text or "exists" in text):
+        from .finite import refute_with_int_candidates
+
+        k, out2 = refute_with_int_candidates(text, kmax=min(kmax, 3), timeout_s=FIN_T)
+        if k is not None:
+            return "sat", k, out2
+        out = f"{out}; int-candidates: {out2}"
     return "unknown", None, out
 
 
